@@ -74,7 +74,7 @@ where
             witness = 3;
         }
     }
-    kani::cover!(witness == if supported_today { 1 } else { 3 }, "cover: init ok (supported) / refused (unsupported)");
+    kani::cover!(if supported_today { witness == 1 } else { witness == 3 || witness == 1 }, "cover: init ok (supported) / refused or newly supported (not in today's table)");
     kani::cover!(!supported_today || witness == 2, "cover: fault after a few commands");
 }
 
